@@ -2,8 +2,8 @@ package main
 
 import (
 	"fmt"
-	"go/types"
 	"os"
+	"strings"
 
 	"golang.org/x/tools/go/ssa"
 
@@ -17,22 +17,23 @@ func main() {
 	}
 	for _, fn := range p.Funcs {
 		core.InstrsOf(fn, func(in ssa.Instruction) {
-			switch x := in.(type) {
-			case *ssa.Range:
-				if _, ok := x.X.Type().Underlying().(*types.Map); ok {
-					fmt.Printf("MAPRANGE %-60s %s  over %s\n", core.FuncName(fn), p.Pos(x.Pos()), core.Canon(x.X))
-				}
-			case *ssa.Go:
-				fmt.Printf("GO       %-60s %s\n", core.FuncName(fn), p.Pos(x.Pos()))
-			case *ssa.Select:
-				fmt.Printf("SELECT   %-60s %s states=%d blocking=%v\n", core.FuncName(fn), p.Pos(x.Pos()), len(x.States), x.Blocking)
+			ta, ok := in.(*ssa.TypeAssert)
+			if !ok || ta.X.Type().String() != "go/types.Type" {
+				return
 			}
-			if c := core.CallOf(in); c != nil {
-				n := core.CalleeName(c)
-				if n == "(*golang.org/x/sync/errgroup.Group).Go" {
-					fmt.Printf("ERRGROUP %-60s %s\n", core.FuncName(fn), p.Pos(in.Pos()))
+			und := true
+			var os_ []string
+			for _, o := range core.Origins(ta.X) {
+				n := ""
+				if c, ok := o.(*ssa.Call); ok {
+					n = core.CalleeName(&c.Call)
 				}
+				if !strings.HasSuffix(n, "Underlying") {
+					und = false
+				}
+				os_ = append(os_, core.Canon(o))
 			}
+			fmt.Printf("%-5v %-55s %-28s %s  <- %s\n", und, core.FuncName(fn), ta.AssertedType.String(), p.Pos(ta.Pos()), strings.Join(os_, " | "))
 		})
 	}
 }
